@@ -224,6 +224,9 @@ func runCheck(args []string) int {
 			}
 			r := P.Verify(fn, sp, hooks)
 			results = append(results, r)
+			if rr := P.VerifyRefines(fn, sp, hooks); rr != nil {
+				results = append(results, rr)
+			}
 		}
 		if !found {
 			bindFails = append(bindFails, &Obl{Name: "bind:" + pat, Kind: "bind", V: Verdict{Result: "unbound", Solver: "-", Output: "function under contract no longer exists in /repo: " + pat}})
@@ -566,6 +569,28 @@ func runCheck(args []string) int {
 		},
 		Assumptions: uniq(append(notes, trusted...)),
 	}
+	if os.Getenv("GVC_SURVEY") != "" {
+		// survey: the functions whose every obligation discharged (or that have none), as spec keys
+		var clean []string
+		for _, r := range results {
+			if !r.sweepOnly || r.Unsupported != "" || r.Fn == nil {
+				continue
+			}
+			ok := true
+			for _, o := range r.Obls {
+				if o.V.Result != "unsat" {
+					ok = false
+				}
+			}
+			if ok {
+				k := specKeyOf(r.Fn)
+				k = strings.TrimPrefix(k, "github.com/yuin/")
+				clean = append(clean, fmt.Sprintf("%s\t# %d obligations", k, len(r.Obls)))
+			}
+		}
+		sort.Strings(clean)
+		os.WriteFile(filepath.Join(os.TempDir(), pd.ID+".clean"), []byte(strings.Join(clean, "\n")+"\n"), 0o644)
+	}
 	evDir := filepath.Join(verif, "evidence")
 	if d := os.Getenv("GVC_EVIDENCE_DIR"); d != "" {
 		evDir = d // used when a check is pointed at a deliberately broken tree (seeded-change tests)
@@ -785,6 +810,9 @@ func readFuncList(verif, name string) []string {
 	}
 	var out []string
 	for _, ln := range strings.Split(string(b), "\n") {
+		if i := strings.Index(ln, "\t#"); i >= 0 {
+			ln = ln[:i]
+		}
 		ln = strings.TrimSpace(ln)
 		if ln == "" || strings.HasPrefix(ln, "#") {
 			continue
@@ -824,5 +852,5 @@ func claimedPatternsByProp(verif string) map[string][]string {
 }
 
 
-var logicalKind = map[string]bool{"inv-entry": true, "inv-preserve": true, "pre@call": true, "post": true, "frame": true,
+var logicalKind = map[string]bool{"refines-pre": true, "refines-post": true,"inv-entry": true, "inv-preserve": true, "pre@call": true, "post": true, "frame": true,
 	"hint": true, "bridge": true, "variant": true, "bind": true, "assert": true}
